@@ -6,7 +6,7 @@ import (
 	"fmt"
 	"go/ast"
 	"go/token"
-	"go/types"
+	"golang.org/x/tools/go/ssa"
 	"strings"
 
 	"golang.org/x/tools/go/cfg"
@@ -270,107 +270,134 @@ func (f *FuncCFG) failureLeavesOrSkips(from, avoid *cfg.Block) bool {
 // ---------------------------------------------------------------------------------
 // F3 parser goroutine containment
 
+// closeInterval: over all paths of fn from entry to exit, the minimum and maximum number of closes of a channel kept in a struct
+// field with the given name (directly, or through module functions called on the way; deferred calls are counted at the exits).
+func closeInterval(fn *ssa.Function, field string, depth int, memo map[*ssa.Function][2]int) (int, int) {
+	if r, ok := memo[fn]; ok {
+		return r[0], r[1]
+	}
+	memo[fn] = [2]int{0, 0}
+	if depth > 4 || len(fn.Blocks) == 0 {
+		return 0, 0
+	}
+	closesField := func(v ssa.Value) bool {
+		u, ok := v.(*ssa.UnOp)
+		if !ok || u.Op != token.MUL {
+			return false
+		}
+		fa, ok := u.X.(*ssa.FieldAddr)
+		if !ok {
+			return false
+		}
+		return strings.HasSuffix(fieldKey(fa.X.Type(), fa.Field), "."+field)
+	}
+	weight := func(ins ssa.Instruction) (int, int) {
+		switch x := ins.(type) {
+		case *ssa.Go:
+			return 0, 0
+		case *ssa.Defer:
+			return 0, 0 // counted below, once per function, as running at every exit
+		case ssa.CallInstruction:
+			if bi, ok := x.Common().Value.(*ssa.Builtin); ok {
+				if bi.Name() == "close" && len(x.Common().Args) == 1 && closesField(x.Common().Args[0]) {
+					return 1, 1
+				}
+				return 0, 0
+			}
+			if callee, _ := calleeOf(x); callee != nil && isModuleFn(callee) {
+				return closeInterval(callee, field, depth+1, memo)
+			}
+		}
+		return 0, 0
+	}
+	// deferred closers run at every exit; a recovering deferred function closes only when a panic happened: not on normal paths
+	minAll, maxAll := 1<<30, -1
+	var walk func(b *ssa.BasicBlock, lo, hi int, seen map[*ssa.BasicBlock]bool)
+	walk = func(b *ssa.BasicBlock, lo, hi int, seen map[*ssa.BasicBlock]bool) {
+		if seen[b] {
+			return
+		}
+		seen[b] = true
+		for _, ins := range b.Instrs {
+			l, h := weight(ins)
+			lo += l
+			hi += h
+		}
+		if len(b.Succs) == 0 {
+			if _, isRet := b.Instrs[len(b.Instrs)-1].(*ssa.Return); isRet {
+				if lo < minAll {
+					minAll = lo
+				}
+				if hi > maxAll {
+					maxAll = hi
+				}
+			}
+		}
+		for _, s := range b.Succs {
+			walk(s, lo, hi, seen)
+		}
+		delete(seen, b)
+	}
+	walk(fn.Blocks[0], 0, 0, map[*ssa.BasicBlock]bool{})
+	if maxAll < 0 {
+		minAll, maxAll = 0, 0
+	}
+	memo[fn] = [2]int{minAll, maxAll}
+	return minAll, maxAll
+}
+
 var ruleF3 = &Rule{
 	ID:    "F3",
 	Floor: 3,
-	Doc: "parser goroutine containment: every goroutine started by the ingest parser driver (writer/utils/unmarshal parserDoer.doParse*) defers, as its first statement, the recovering method that turns a panic into an error response; " +
-		"the response channel is closed exactly once on every path of the goroutine body (error path, normal path) and once in the recovering method; the drain idiom follows the early error return in the consumer",
+	Doc: "parser goroutine containment (SSA, interprocedural): every goroutine started in the live code of writer/utils/unmarshal whose function calls a parser's Decode method (1) registers, before that call, a deferred function that calls recover in its own body (a recover inside a nested closure does not recover); " +
+		"(2) closes the response channel (the struct field `res`) exactly once on every path from its entry to a return — closes are counted through the module functions called on the way (an extracted `send the error and close` helper counts for its one close), deferred recover handlers are not on normal paths",
 	Run: func(c *Ctx) []Obl {
 		var obls []Obl
-		for _, fi := range c.Funcs(c.PkgsUnder("writer/utils/unmarshal")) {
-			if isTestFile(c, fi.Decl) || fi.Decl.Recv == nil || recvTypeName(fi.Decl) != "parserDoer" {
-				continue
-			}
-			info := fi.Pkg.TypesInfo
-			for _, st := range fi.Decl.Body.List {
-				gs, ok := st.(*ast.GoStmt)
-				if !ok {
-					continue
-				}
-				fl, ok := gs.Call.Fun.(*ast.FuncLit)
-				if !ok || len(fl.Body.List) < 2 {
-					continue
-				}
-				// only the parsing goroutines (they call Decode)
-				callsDecode := false
-				ast.Inspect(fl.Body, func(n ast.Node) bool {
-					if call, ok := n.(*ast.CallExpr); ok {
-						if se, ok := ast.Unparen(call.Fun).(*ast.SelectorExpr); ok && se.Sel.Name == "Decode" {
-							callsDecode = true
-						}
+		for _, fn := range liveModuleFuncs(c, "writer/utils/unmarshal") {
+			for _, b := range fn.Blocks {
+				for _, ins := range b.Instrs {
+					gs, ok := ins.(*ssa.Go)
+					if !ok {
+						continue
 					}
-					return true
-				})
-				if !callsDecode {
-					continue
-				}
-				name := fi.Name()
-				// (1) first statement defers a method that recovers directly
-				okDefer := false
-				if d, ok := fl.Body.List[0].(*ast.DeferStmt); ok {
-					if fn, ok := calleeObj(info, d.Call).(*types.Func); ok {
-						if fd := c.declOf(fi.Pkg, fn); fd != nil {
-							for _, s := range fd.Body.List {
-								ast.Inspect(s, func(n ast.Node) bool {
-									if _, isLit := n.(*ast.FuncLit); isLit {
-										return false
-									}
-									if call, ok := n.(*ast.CallExpr); ok {
-										if id, ok := call.Fun.(*ast.Ident); ok && id.Name == "recover" {
-											okDefer = true
-										}
-									}
-									return true
-								})
+					gf, _ := calleeOf(gs)
+					if gf == nil || len(gf.Blocks) == 0 {
+						continue
+					}
+					var decode ssa.Instruction
+					for _, gb := range gf.Blocks {
+						for _, gi := range gb.Instrs {
+							if call, ok := gi.(*ssa.Call); ok && call.Common().IsInvoke() && call.Common().Method.Name() == "Decode" {
+								decode = call
 							}
 						}
 					}
-				}
-				s1, m1 := OK, ""
-				if !okDefer {
-					s1, m1 = Violation, "the parser goroutine does not defer a directly-recovering function as its first statement: a panic while decoding a request body ends the process"
-				}
-				obls = append(obls, Obl{Key: name + " parser goroutine defers the recovering method first", Pos: c.pos(gs.Pos()), Status: s1, Msg: m1})
-				// (2) close(p.res) exactly once on every path
-				g := c.cfgOf(fi, fl.Body)
-				closeBlocks := map[*cfg.Block]int{}
-				ast.Inspect(fl.Body, func(n ast.Node) bool {
-					if call, ok := n.(*ast.CallExpr); ok {
-						if id, ok := call.Fun.(*ast.Ident); ok && id.Name == "close" && len(call.Args) == 1 && strings.HasSuffix(c.normText(call.Args[0]), ".res") {
-							if b, _ := g.BlockOf(call); b != nil {
-								closeBlocks[b]++
+					if decode == nil {
+						continue
+					}
+					name := ssaName(fn)
+					okDefer := false
+					for _, gb := range gf.Blocks {
+						for _, gi := range gb.Instrs {
+							if d, ok := gi.(*ssa.Defer); ok && before(d, decode) {
+								if callee, _ := calleeOf(d); callee != nil && recoversDirectly(callee) {
+									okDefer = true
+								}
 							}
 						}
 					}
-					return true
-				})
-				// count closes along every path entry→exit
-				okOnce := len(g.g.Blocks) > 0
-				var walk func(b *cfg.Block, n int, seen map[*cfg.Block]bool)
-				walk = func(b *cfg.Block, n int, seen map[*cfg.Block]bool) {
-					if seen[b] {
-						return
+					s1, m1 := OK, ""
+					if !okDefer {
+						s1, m1 = Violation, "the parser goroutine does not register a directly-recovering deferred function before decoding: a panic while decoding a request body ends the process"
 					}
-					seen[b] = true
-					n += closeBlocks[b]
-					if len(b.Succs) == 0 {
-						if n != 1 {
-							okOnce = false
-						}
+					obls = append(obls, Obl{Key: name + " parser goroutine defers the recovering method first", Pos: c.pos(gs.Pos()), Status: s1, Msg: m1})
+					lo, hi := closeInterval(gf, "res", 0, map[*ssa.Function][2]int{})
+					s2, m2 := OK, ""
+					if lo != 1 || hi != 1 {
+						s2, m2 = Violation, fmt.Sprintf("the parser goroutine closes the response channel between %d and %d times depending on the path: twice panics, never leaves the handler waiting forever", lo, hi)
 					}
-					for _, s := range b.Succs {
-						walk(s, n, seen)
-					}
-					delete(seen, b)
+					obls = append(obls, Obl{Key: name + " response channel closed exactly once on every path", Pos: c.pos(gs.Pos()), Status: s2, Msg: m2})
 				}
-				if okOnce {
-					walk(g.g.Blocks[0], 0, map[*cfg.Block]bool{})
-				}
-				s2, m2 := OK, ""
-				if !okOnce {
-					s2, m2 = Violation, "some path of the parser goroutine closes the response channel twice (panic) or not at all (the handler waits forever)"
-				}
-				obls = append(obls, Obl{Key: name + " response channel closed exactly once on every path", Pos: c.pos(gs.Pos()), Status: s2, Msg: m2})
 			}
 		}
 		return obls
